@@ -122,6 +122,39 @@ theorem segmentation_irrelevant (segs : List Bytes) (n : Nat) (hn : n ≠ 0) :
     rw [if_neg h0, if_neg hlen]
     exact ⟨segs', e, hf⟩
 
+
+/-- **p_first_partial** (client side of `p_first` / `request_observed`): `DialStream` puts the first
+`room = streamMaxPayloadSize − addrLen − 2` bytes of the initial payload at the end of the
+variable-length header, sealed under nonce 1 in the first transport write, and writes the excess
+as ordinary chunks from nonce 2 on — so by `stream_roundtrip` (with the excess as the first
+`Write`) the server's reads return `P.drop room` followed by the later writes.
+
+Not proved in Lean (tied by the `stream` engine and its oracle only): the server-side half
+`request_observed`, i.e. `handle C scfg now (any admissible segmentation of (dial …).segs) =
+.request ⟨T.norm, P.take room, owner⟩ ⟨k, 2, [], rest⟩ …` for every configuration (it needs the
+round trip of the SOCKS address codec and of the two header layouts through `parseVarHeader`,
+`unbeN`/`be64`, and the identity-header lookup). -/
+theorem p_first_partial (C : Crypto) (cfg : ClientCfg) (ch : DialChoice) (target : Addr) (payload : Bytes) :
+    let d := dial C cfg ch target payload
+    let k := C.kdf cfg.psk ch.salt
+    d.inReq = payload.take (roomForPayload target) ∧ d.excess = payload.drop (roomForPayload target) ∧
+    d.inReq ++ d.excess = payload ∧
+    (∃ pre vh, d.segs.head? = some (pre ++ C.enc k 1 vh) ∧ ∃ hd, vh = hd ++ d.inReq) ∧
+    (d.segs.drop 1).flatten = encodeChunks C k 2 (writeChunks d.excess) ∧
+    d.writer = ⟨k, 2 + 2 * (writeChunks d.excess).length⟩ := by
+  have hem := emit_flatten C ⟨C.kdf cfg.psk ch.salt, 2⟩
+    (writeChunks (if payload.length > roomForPayload target then payload.drop (roomForPayload target) else []))
+  by_cases hgt : payload.length > roomForPayload target
+  · simp only [dial, hgt, ↓reduceIte] at hem ⊢
+    refine ⟨trivial, trivial, List.take_append_drop _ _, ⟨_, _, rfl, _, rfl⟩, ?_, ?_⟩
+    · simpa using hem.1
+    · simpa using hem.2.1
+  · have hle : payload.length ≤ roomForPayload target := by omega
+    simp only [dial, hgt, ↓reduceIte] at hem ⊢
+    refine ⟨(List.take_of_length_le hle).symm, (List.drop_of_length_le hle).symm, by simp, ⟨_, _, rfl, _, rfl⟩, ?_, ?_⟩
+    · simpa using hem.1
+    · simpa using hem.2.1
+
 /-- the splitting loops of `Write` / `ReadFrom` lose nothing and respect the chunk limit -/
 theorem writer_chunks_valid (calls : List WCall) :
     ValidChunks (calls.flatMap WCall.chunks) ∧
@@ -139,3 +172,4 @@ end SSV.C01
 #print axioms SSV.C01.increment_is_successor
 #print axioms SSV.C01.segmentation_irrelevant
 #print axioms SSV.C01.writer_chunks_valid
+#print axioms SSV.C01.p_first_partial
